@@ -87,7 +87,8 @@ import (
 // fixed per harness (the harnesses VerifC10AppPage* partition the first record's
 // kind so that they run in parallel), second record off / L / Lx / C / CL / Cx, third
 // account only in VerifC10AppPageThird. Thorough: K <= 2, second record all 8 kinds,
-// includeParams symbolic, plus VerifC10AppPageRare (first record CxLx/CLx/CxL).
+// plus three harnesses for a first record CxLx / CLx / CxL and
+// VerifC10AppPageNoParams (includeParams = false, quick bounds).
 //
 // The scenario "in unflushed rounds the account opted in to app B and created,
 // without opting in, app A < B, A above its on-disk rows (with or without such rows),
@@ -433,13 +434,10 @@ func (w *verifC10AppWorld) checkCandidate(tag string, page []ledgercore.AppResou
 	vr.Assert(tag, vr.Implies(w.present(x) && x > w.cursor, verifC10AppListed(page, x) || beyond))
 }
 
-func verifC10AppRun(maxRows, maxLimit int, kinds0, kinds1 []int, third bool, symbolicInclude bool) {
+func verifC10AppRun(maxRows, maxLimit int, kinds0, kinds1 []int, third bool, noParams bool) {
 	w := verifC10AppBuild(maxRows, kinds0, kinds1, third)
 	limit := uint64(1 + vr.Choice("limit", maxLimit))
-	includeParams := true
-	if symbolicInclude {
-		includeParams = vr.Bool("includeparams")
-	}
+	includeParams := !noParams
 	w.db.includeParams = includeParams
 
 	page, rnd, err := w.au.lookupApplicationResources(w.addr, w.cursor, limit, includeParams)
@@ -539,7 +537,7 @@ func verifC10AppSecond() []int {
 }
 
 func verifC10AppPage(kinds0 []int) {
-	verifC10AppRun(vr.Param(1, 2), 2, kinds0, verifC10AppSecond(), false, vr.Param(0, 1) == 1)
+	verifC10AppRun(vr.Param(1, 2), 2, kinds0, verifC10AppSecond(), false, false)
 }
 
 // first record: none, or an opt-in (then e.g. "opted in to B, created A < B")
@@ -547,10 +545,15 @@ func verifC10AppPage(kinds0 []int) {
 //verif:harness prop=C10 reach=done,two,deltaonly,createdonly,createdbelowoptin,overridden,dbcreatoronly,nocreator,dbrowremoved,dbhasmore,shortpage unwind=12 budget=330 thorough.budget=3600
 func VerifC10AppPageOptIn() { verifC10AppPage([]int{verifC10AppOff, verifC10AppL}) }
 
-// first record: a close-out, or the deletion of an app the account created
+// first record: a close-out
 //
 //verif:harness prop=C10 reach=done,two,deltaonly,createdonly,overridden,dbrowremoved,dbhasmore,shortpage unwind=12 budget=330 thorough.budget=3600
-func VerifC10AppPageRemove() { verifC10AppPage([]int{verifC10AppLx, verifC10AppCx}) }
+func VerifC10AppPageCloseOut() { verifC10AppPage([]int{verifC10AppLx}) }
+
+// first record: the deletion of an app the account created (and was not opted in to)
+//
+//verif:harness prop=C10 reach=done,two,deltaonly,createdonly,overridden,dbrowremoved,dbhasmore,shortpage unwind=12 budget=330 thorough.budget=3600
+func VerifC10AppPageDestroy() { verifC10AppPage([]int{verifC10AppCx}) }
 
 // first record: an app created (or updated) without opting in
 //
@@ -565,8 +568,20 @@ func VerifC10AppPageCreateOptIn() { verifC10AppPage([]int{verifC10AppCL}) }
 // first record: the mixed deletions (thorough only)
 //
 //verif:harness prop=C10 tier=thorough reach=done,two,deltaonly,createdonly,overridden,dbrowremoved,dbhasmore,shortpage unwind=12 budget=3600
-func VerifC10AppPageRare() {
-	verifC10AppPage([]int{verifC10AppCxLx, verifC10AppCLx, verifC10AppCxL})
+func VerifC10AppPageDestroyCloseOut() { verifC10AppPage([]int{verifC10AppCxLx}) }
+
+//verif:harness prop=C10 tier=thorough reach=done,two,deltaonly,createdonly,overridden,dbhasmore,shortpage unwind=12 budget=3600
+func VerifC10AppPageCreatorCloseOut() { verifC10AppPage([]int{verifC10AppCLx}) }
+
+//verif:harness prop=C10 tier=thorough reach=done,two,deltaonly,createdonly,overridden,nocreator,dbhasmore,shortpage unwind=12 budget=3600
+func VerifC10AppPageDestroyStayOptedIn() { verifC10AppPage([]int{verifC10AppCxL}) }
+
+// includeParams == false: creators are reported, params never loaded (thorough
+// only; quick-tier bounds)
+//
+//verif:harness prop=C10 tier=thorough reach=done,two,deltaonly,createdonly,createdbelowoptin,overridden,dbhasmore,shortpage unwind=12 budget=3600
+func VerifC10AppPageNoParams() {
+	verifC10AppRun(1, 2, []int{verifC10AppOff, verifC10AppL, verifC10AppC, verifC10AppCL}, verifC10AppSecondQuick, false, true)
 }
 
 // a third account updates or deletes an app it created (the account may be opted
